@@ -21,7 +21,7 @@ IntOfStr(s) == IF Ch(s, 1) = "-" THEN -DigitsVal(SubSeq(s, 2, Len(s)))
                ELSE DigitsVal(s)
 
 \* value of the left operand of a math filter (math_filter: default 0)
-NumLeft(v) == CASE v.t = "int" -> v.v
+NumLeft(v) == CASE v.t = "int" -> v.n
                 [] v.t = "str" /\ IsIntStr(Strip(v.v)) -> IntOfStr(Strip(v.v))
                 [] OTHER -> 0
 NumArg(v)  == NumLeft(v)
@@ -97,14 +97,14 @@ EscArg(v, cfg) == IF cfg.autoescape /\ ~IsSafe(v) THEN Escape(ToStr(v)) ELSE ToS
 
 AllScalars(s) == \A i \in DOMAIN s : s[i].t \in {"str", "int"}
 Homogeneous(s) == (\A i \in DOMAIN s : s[i].t = "str") \/ (\A i \in DOMAIN s : s[i].t = "int")
-ValLt(a, b) == IF a.t = "str" THEN StrLt(a.v, b.v) ELSE a.v < b.v
+ValLt(a, b) == IF a.t = "str" THEN StrLt(a.v, b.v) ELSE a.n < b.n
 
 \* ---- array filters keyed by a property name ----------------------------------
 \* (filter_reference.md: where / reject / find / find_index / has / map / uniq /
 \* compact / sum / sort with a string key).  Items must be hashes; comparing with
 \* Python == across bool/int, and 0 as a "truthy" property, are UNSPECIFIED.
 AllHashes(s) == \A i \in DOMAIN s : s[i].t = "hash"
-Prop(h, k) == IF HHas(h.v, k) THEN HGet(h.v, k) ELSE Nil
+Prop(h, k) == IF HHas(h.h, k) THEN HGet(h.h, k) ELSE Nil
 Murky(seq, k, val) ==
   \/ \E i \in DOMAIN seq : Prop(seq[i], k).t \notin {"nil", "bool", "int", "str"}
   \/ \E i \in DOMAIN seq : Prop(seq[i], k) = IntV(0) \/ Prop(seq[i], k) = IntV(1)
@@ -163,7 +163,8 @@ Apply(name, left, args, cfg) ==
     [] name = "size" ->
          IF Len(args) # 0 THEN Err("LiquidTypeError")
          ELSE (CASE left.t = "str" -> IntV(Len(left.v))
-                [] left.t \in {"arr", "hash"} -> IntV(Len(left.v))
+                [] left.t = "arr" -> IntV(Len(left.v))
+                [] left.t = "hash" -> IntV(Len(left.h))
                 [] left.t = "range" -> IntV(RangeLen(left))
                 [] OTHER -> IntV(0))
     [] name \in {"replace", "replace_first"} ->
@@ -185,7 +186,7 @@ Apply(name, left, args, cfg) ==
          IF Len(args) # 0 THEN Err("LiquidTypeError")
          ELSE (CASE left.t = "arr" -> IF left.v = <<>> THEN Nil ELSE left.v[1]
                 [] left.t = "range" -> IF RangeLen(left) = 0 THEN Nil ELSE IntV(left.a)
-                [] left.t = "hash" -> IF left.v = <<>> THEN Nil ELSE Arr(<<Str(left.v[1][1]), left.v[1][2]>>)
+                [] left.t = "hash" -> IF left.h = <<>> THEN Nil ELSE Arr(<<Str(left.h[1][1]), left.h[1][2]>>)
                 [] OTHER -> Nil)
     [] name = "last" ->
          IF Len(args) # 0 THEN Err("LiquidTypeError")
@@ -209,24 +210,24 @@ Apply(name, left, args, cfg) ==
     [] name = "truncate" ->
          IF Len(args) > 2 THEN Err("LiquidTypeError")
          ELSE IF Len(args) >= 1 /\ a1.t \notin {"int"} THEN Err("LiquidTypeError")   \* only ints modelled
-         ELSE LET n == IF Len(args) >= 1 THEN a1.v ELSE 50
+         ELSE LET n == IF Len(args) >= 1 THEN a1.n ELSE 50
                   end == IF Len(args) = 2 THEN ToStr(a2) ELSE "..."
               IN IF n < 0 THEN Err("UNSPEC") ELSE Str(Truncate(ls, n, end))
     [] name = "reverse" -> IF Len(args) # 0 THEN Err("LiquidTypeError") ELSE Arr(Reverse(seq))
     [] name = "compact" ->
          IF Len(args) = 0 THEN Arr(SelectSeq(seq, LAMBDA x : x.t \notin {"nil", "undef"}))
          ELSE IF Len(args) # 1 \/ a1.t # "str" \/ ~AllHashes(seq) THEN Err("UNSPEC")
-         ELSE IF \E i \in DOMAIN seq : ~HHas(seq[i].v, a1.v) THEN Err("UNSPEC")
+         ELSE IF \E i \in DOMAIN seq : ~HHas(seq[i].h, a1.v) THEN Err("UNSPEC")
          ELSE Arr(SelectSeq(seq, LAMBDA h : Prop(h, a1.v).t # "nil"))
     [] name = "concat" ->
          IF Len(args) # 1 THEN Err("LiquidTypeError")
          ELSE IF a1.t \notin {"arr", "range"} THEN Err("LiquidTypeError")
          ELSE Arr(seq \o SeqOf(a1))
     [] name = "uniq" ->
-         IF Len(args) = 0 THEN (IF \A i \in DOMAIN seq : seq[i].t \in {"str", "nil"} \/ (seq[i].t = "int" /\ seq[i].v \notin {0, 1})
+         IF Len(args) = 0 THEN (IF \A i \in DOMAIN seq : seq[i].t \in {"str", "nil"} \/ (seq[i].t = "int" /\ seq[i].n \notin {0, 1})
                                 THEN Arr(UniqSeq(seq, <<>>)) ELSE Err("UNSPEC"))
          ELSE IF Len(args) # 1 \/ a1.t # "str" \/ ~AllHashes(seq) \/ Murky(seq, a1.v, Nil) THEN Err("UNSPEC")
-         ELSE IF \E i \in DOMAIN seq : ~HHas(seq[i].v, a1.v) THEN Err("UNSPEC")
+         ELSE IF \E i \in DOMAIN seq : ~HHas(seq[i].h, a1.v) THEN Err("UNSPEC")
          ELSE Arr(UniqBy(seq, [i \in DOMAIN seq |-> Prop(seq[i], a1.v)], 1, <<>>))
     [] name = "sort" ->
          IF Len(args) = 0 THEN (IF ~(AllScalars(seq) /\ Homogeneous(seq)) THEN Err("UNSPEC") ELSE Arr(SortBy(ValLt, seq)))
@@ -236,7 +237,7 @@ Apply(name, left, args, cfg) ==
     [] name = "map" ->
          IF Len(args) # 1 \/ a1.t # "str" THEN Err("UNSPEC")
          ELSE IF \E i \in DOMAIN seq : seq[i].t # "hash" THEN Err("LiquidTypeError")
-         ELSE Arr([i \in DOMAIN seq |-> IF HHas(seq[i].v, a1.v) THEN HGet(seq[i].v, a1.v) ELSE Nil])
+         ELSE Arr([i \in DOMAIN seq |-> IF HHas(seq[i].h, a1.v) THEN HGet(seq[i].h, a1.v) ELSE Nil])
     [] name = "where" ->
          IF Len(args) \notin {1, 2} THEN Err("LiquidTypeError")
          ELSE IF a1.t # "str" \/ ~AllHashes(seq) \/ Murky(seq, a1.v, a2) THEN Err("UNSPEC")
